@@ -5,6 +5,7 @@ import (
 	"strings"
 	"testing"
 
+	"github.com/iotaledger/hive.go/runtime/options"
 	"github.com/iotaledger/hive.go/runtime/workerpool"
 	"verifharness/hx"
 	"verifsim/simrt"
@@ -511,9 +512,9 @@ func groupTree(s *simrt.Sim) {
 	root := workerpool.NewGroup("root")
 	var worlds []*world
 	var pools []*workerpool.WorkerPool
-	mk := func(gr *workerpool.Group, name string) int {
+	mk := func(gr *workerpool.Group, name string, opts ...options.Option[workerpool.WorkerPool]) int {
 		w := &world{s: s, inflight: map[*simrt.Task]*subm{}}
-		p := gr.CreatePool(name, workerpool.WithWorkerCount(1+s.Choose(2)))
+		p := gr.CreatePool(name, append([]options.Option[workerpool.WorkerPool]{workerpool.WithWorkerCount(1 + s.Choose(2))}, opts...)...)
 		w.watch(p)
 		w.windows = append(w.windows, &window{from: s.Tick()})
 		worlds = append(worlds, w)
@@ -522,6 +523,13 @@ func groupTree(s *simrt.Sim) {
 	}
 	nodes := []*gnode{{g: root, name: "root"}}
 	nodes[0].pools = append(nodes[0].pools, mk(root, "r"))
+	// optionally a pool that explicitly opts out of the group's cancel-on-shutdown default and is shut down on its own
+	// while tasks are queued: all of its accepted tasks have to run
+	optOut := -1
+	if s.Choose(3) == 2 {
+		optOut = mk(root, "keep", workerpool.WithCancelPendingTasksOnShutdown(false))
+		nodes[0].pools = append(nodes[0].pools, optOut)
+	}
 	depth := 1 + s.Choose(3)
 	cur := root
 	for d := 1; d < depth; d++ {
@@ -587,6 +595,20 @@ func groupTree(s *simrt.Sim) {
 			waits = append(waits, &waitRec{worlds: below(target), name: ":" + target.name, inv: inv, ret: ret})
 		})
 	}
+	if optOut >= 0 {
+		d := s.Choose(6)
+		s.Go("poolshutdown", func() {
+			for k := 0; k < d; k++ {
+				simrt.Yield()
+			}
+			t := s.Tick()
+			worlds[optOut].windows[0].to = t
+			worlds[optOut].shutdownInv = t
+			s.Probe("no-cancel-pool-of-a-group-shut-down-on-its-own")
+			pools[optOut].Shutdown()
+			pools[optOut].ShutdownComplete.Wait()
+		})
+	}
 	// optionally shut a subgroup down while the submitters are still at work
 	if len(nodes) > 1 && s.Choose(2) == 1 {
 		ni := 1 + s.Choose(len(nodes)-1)
@@ -635,7 +657,7 @@ func groupTree(s *simrt.Sim) {
 	}
 	left := s.Quiesce()
 	hx.Stuck(s, "termination", left, func(t simrt.TaskInfo) bool {
-		return strings.HasPrefix(t.Name, "submitter") || strings.HasPrefix(t.Name, "waiter") || t.Name == "subshutdown"
+		return strings.HasPrefix(t.Name, "submitter") || strings.HasPrefix(t.Name, "waiter") || t.Name == "subshutdown" || t.Name == "poolshutdown"
 	})
 	for _, r := range waits {
 		r.check(s)
@@ -651,6 +673,9 @@ func groupTree(s *simrt.Sim) {
 		for _, sb := range w.subs {
 			if sb.starts > 1 {
 				s.Fail("exactly-once", "run-twice", "task %s ran %d times", sb.id, sb.starts)
+			}
+			if i == optOut && sb.accepted && sb.ret != 0 && sb.starts == 0 {
+				s.Fail("conservation", "accepted-never-run:pool-without-cancel-on-shutdown", "task %s was accepted by pool %s, which was created with WithCancelPendingTasksOnShutdown(false), but never ran", sb.id, p.Name)
 			}
 			win := w.windows[0]
 			if !sb.accepted && sb.ret != 0 && sb.inv > win.from && (win.to == 0 || sb.ret < win.to) {
